@@ -14,6 +14,11 @@ type nat =
 let fst = function
 | (x, _) -> x
 
+(** val snd : ('a1 * 'a2) -> 'a2 **)
+
+let snd = function
+| (_, y) -> y
+
 (** val length : 'a1 list -> nat **)
 
 let rec length = function
@@ -108,6 +113,17 @@ let tl = function
 | [] -> []
 | _ :: m -> m
 
+(** val nth : nat -> 'a1 list -> 'a1 -> 'a1 **)
+
+let rec nth n l default =
+  match n with
+  | O -> (match l with
+          | [] -> default
+          | x :: _ -> x)
+  | S m -> (match l with
+            | [] -> default
+            | _ :: t -> nth m t default)
+
 (** val nth_error : 'a1 list -> nat -> 'a1 option **)
 
 let rec nth_error l = function
@@ -148,6 +164,12 @@ let rec fold_left f l a0 =
 let rec existsb f = function
 | [] -> false
 | a :: l0 -> (||) (f a) (existsb f l0)
+
+(** val filter : ('a1 -> bool) -> 'a1 list -> 'a1 list **)
+
+let rec filter f = function
+| [] -> []
+| x :: l0 -> if f x then x :: (filter f l0) else filter f l0
 
 (** val firstn : nat -> 'a1 list -> 'a1 list **)
 
@@ -1836,3 +1858,295 @@ let rec lrun_diag s tr i =
     (match lstep s e with
      | Some s' -> lrun_diag s' tr' (S i)
      | None -> (s, (Some i)))
+
+type tid0 = nat
+
+type ptr = z
+
+(** val ep_adv : z -> z **)
+
+let ep_adv e =
+  Z.modulo (Z.add e (Zpos XH)) (Zpos (XO (XO XH)))
+
+type thr = { t_reg : bool; t_lsq : z; t_ls : z; t_qs : z; t_prev : ptr list;
+             t_cur : ptr list }
+
+(** val thr0 : thr **)
+
+let thr0 =
+  { t_reg = false; t_lsq = Z0; t_ls = Z0; t_qs = Z0; t_prev = []; t_cur = [] }
+
+type qstate = { q_ep : z; q_T : z; q_P : z; q_oprev : ptr list list;
+                q_ocur : ptr list list; q_thr : thr list; q_gep : z;
+                q_wait : (ptr * tid0 list) list }
+
+(** val qinit : nat -> qstate **)
+
+let qinit n =
+  { q_ep = Z0; q_T = Z0; q_P = Z0; q_oprev = []; q_ocur = []; q_thr =
+    (repeat thr0 n); q_gep = Z0; q_wait = [] }
+
+(** val get_thr : qstate -> tid0 -> thr **)
+
+let get_thr s t =
+  nth t s.q_thr thr0
+
+(** val set_nth_thr : nat -> thr -> thr list -> thr list **)
+
+let rec set_nth_thr i x l =
+  match i with
+  | O -> (match l with
+          | [] -> []
+          | _ :: l' -> x :: l')
+  | S i' -> (match l with
+             | [] -> []
+             | y :: l' -> y :: (set_nth_thr i' x l'))
+
+(** val set_thr : qstate -> tid0 -> thr -> qstate **)
+
+let set_thr s t x =
+  { q_ep = s.q_ep; q_T = s.q_T; q_P = s.q_P; q_oprev = s.q_oprev; q_ocur =
+    s.q_ocur; q_thr = (set_nth_thr t x s.q_thr); q_gep = s.q_gep; q_wait =
+    s.q_wait }
+
+type step_res = qstate * ptr list
+
+(** val remove_tid0 : tid0 -> tid0 list -> tid0 list **)
+
+let rec remove_tid0 t = function
+| [] -> []
+| x :: l' -> if Nat.eqb x t then remove_tid0 t l' else x :: (remove_tid0 t l')
+
+(** val ghost_passed :
+    (ptr * tid0 list) list -> tid0 -> (ptr * tid0 list) list **)
+
+let ghost_passed w t =
+  map (fun pw -> ((fst pw), (remove_tid0 t (snd pw)))) w
+
+(** val registered_others : thr list -> tid0 -> nat -> tid0 list **)
+
+let rec registered_others l t i =
+  match l with
+  | [] -> []
+  | x :: l' ->
+    app (if (&&) x.t_reg (negb (Nat.eqb i t)) then i :: [] else [])
+      (registered_others l' t (S i))
+
+(** val ghost_drop :
+    (ptr * tid0 list) list -> ptr list -> (ptr * tid0 list) list **)
+
+let rec ghost_drop w ps =
+  match w with
+  | [] -> []
+  | p0 :: w' ->
+    let (p, ws) = p0 in
+    if existsb (Z.eqb p) ps
+    then ghost_drop w' ps
+    else (p, ws) :: (ghost_drop w' ps)
+
+(** val with_ghost : qstate -> (ptr * tid0 list) list -> qstate **)
+
+let with_ghost s w =
+  { q_ep = s.q_ep; q_T = s.q_T; q_P = s.q_P; q_oprev = s.q_oprev; q_ocur =
+    s.q_ocur; q_thr = s.q_thr; q_gep = s.q_gep; q_wait = w }
+
+(** val exec_prev : thr -> bool -> z -> ptr list -> thr * ptr list **)
+
+let exec_prev x stm de newcur =
+  if stm
+  then ({ t_reg = x.t_reg; t_lsq = x.t_lsq; t_ls = de; t_qs = x.t_qs;
+         t_prev = []; t_cur = newcur }, (app x.t_cur x.t_prev))
+  else ({ t_reg = x.t_reg; t_lsq = x.t_lsq; t_ls = de; t_qs = x.t_qs;
+         t_prev = x.t_cur; t_cur = newcur }, x.t_prev)
+
+(** val adv_seen : thr -> bool -> z -> ptr list -> (thr * ptr list) * bool **)
+
+let adv_seen x stm e newcur =
+  if Z.eqb e x.t_ls
+  then ((x, []), false)
+  else ((exec_prev x stm e newcur), true)
+
+(** val handle_orphans :
+    qstate -> bool -> (ptr list list * ptr list list) * ptr list **)
+
+let handle_orphans s = function
+| true -> (([], []), (app (concat s.q_oprev) (concat s.q_ocur)))
+| false -> ((s.q_ocur, []), (concat s.q_oprev))
+
+(** val q_retire : qstate -> tid0 -> ptr -> step_res **)
+
+let q_retire s t p =
+  let x = get_thr s t in
+  let e = s.q_ep in
+  let stm = Z.ltb s.q_T (Zpos (XO XH)) in
+  if stm
+  then let (p0, _) = adv_seen x stm e [] in
+       let (x', f) = p0 in
+       let s' = set_thr s t x' in
+       ((with_ghost s' ((p, (registered_others s.q_thr t O)) :: s'.q_wait)),
+       (app f (p :: [])))
+  else if negb (Z.eqb x.t_ls e)
+       then let (p0, _) = adv_seen x stm e (p :: []) in
+            let (x', f) = p0 in
+            let s' = set_thr s t x' in
+            ((with_ghost s' ((p,
+               (registered_others s.q_thr t O)) :: s'.q_wait)), f)
+       else let x' = { t_reg = x.t_reg; t_lsq = x.t_lsq; t_ls = x.t_ls;
+              t_qs = x.t_qs; t_prev = x.t_prev; t_cur =
+              (app x.t_cur (p :: [])) }
+            in
+            let s' = set_thr s t x' in
+            ((with_ghost s' ((p,
+               (registered_others s.q_thr t O)) :: s'.q_wait)), [])
+
+(** val q_quiescent : qstate -> tid0 -> step_res **)
+
+let q_quiescent s0 t =
+  let s = with_ghost s0 (ghost_passed s0.q_wait t) in
+  let x = get_thr s t in
+  let e = s.q_ep in
+  let stm = Z.ltb s.q_T (Zpos (XO XH)) in
+  let (p, _) = adv_seen x stm e [] in
+  let (x1, f1) = p in
+  let x2 =
+    if negb (Z.eqb e x1.t_lsq)
+    then { t_reg = x1.t_reg; t_lsq = e; t_ls = x1.t_ls; t_qs = Z0; t_prev =
+           x1.t_prev; t_cur = x1.t_cur }
+    else x1
+  in
+  if Z.eqb x2.t_qs Z0
+  then if Z.ltb (Zpos XH) s.q_P
+       then let x3 = { t_reg = x2.t_reg; t_lsq = x2.t_lsq; t_ls = x2.t_ls;
+              t_qs = (Z.add x2.t_qs (Zpos XH)); t_prev = x2.t_prev; t_cur =
+              x2.t_cur }
+            in
+            let s1 = set_thr s t x3 in
+            ({ q_ep = s1.q_ep; q_T = s1.q_T; q_P = (Z.sub s1.q_P (Zpos XH));
+            q_oprev = s1.q_oprev; q_ocur = s1.q_ocur; q_thr = s1.q_thr;
+            q_gep = s1.q_gep; q_wait = s1.q_wait }, f1)
+       else let (p0, fo) = handle_orphans s stm in
+            let (op, oc) = p0 in
+            let ne = ep_adv e in
+            let x3 = { t_reg = x2.t_reg; t_lsq = ne; t_ls = x2.t_ls; t_qs =
+              x2.t_qs; t_prev = x2.t_prev; t_cur = x2.t_cur }
+            in
+            let (x4, f2) = exec_prev x3 stm ne [] in
+            let s1 = set_thr s t x4 in
+            ({ q_ep = ne; q_T = s1.q_T; q_P = s1.q_T; q_oprev = op; q_ocur =
+            oc; q_thr = s1.q_thr; q_gep = (Z.add s1.q_gep (Zpos XH));
+            q_wait = s1.q_wait }, (app f1 (app fo f2)))
+  else let x3 = { t_reg = x2.t_reg; t_lsq = x2.t_lsq; t_ls = x2.t_ls; t_qs =
+         (Z.add x2.t_qs (Zpos XH)); t_prev = x2.t_prev; t_cur = x2.t_cur }
+       in
+       ((set_thr s t x3), f1)
+
+(** val push_nonempty : ptr list -> ptr list list -> ptr list list **)
+
+let push_nonempty v l =
+  match v with
+  | [] -> l
+  | _ :: _ -> v :: l
+
+(** val q_unregister : qstate -> tid0 -> step_res **)
+
+let q_unregister s0 t =
+  let s = with_ghost s0 (ghost_passed s0.q_wait t) in
+  let x = get_thr s t in
+  let e = s.q_ep in
+  let stm = Z.ltb s.q_T (Zpos (XO XH)) in
+  if Z.eqb s.q_P Z0
+  then let x' = { t_reg = false; t_lsq = x.t_lsq; t_ls = x.t_ls; t_qs =
+         x.t_qs; t_prev = []; t_cur = [] }
+       in
+       let s1 = set_thr s t x' in
+       ({ q_ep = s1.q_ep; q_T = (Z.sub s1.q_T (Zpos XH)); q_P = s1.q_P;
+       q_oprev = (push_nonempty x.t_prev s1.q_oprev); q_ocur =
+       (push_nonempty x.t_cur s1.q_ocur); q_thr = s1.q_thr; q_gep = s1.q_gep;
+       q_wait = s1.q_wait }, [])
+  else let remove_old = (||) (negb (Z.eqb x.t_lsq e)) (Z.eqb x.t_qs Z0) in
+       let advance = (&&) remove_old (Z.eqb s.q_P (Zpos XH)) in
+       let (p, fo) =
+         if advance then handle_orphans s stm else ((s.q_oprev, s.q_ocur), [])
+       in
+       let (op, oc) = p in
+       let (p0, _) = adv_seen x stm e [] in
+       let (x1, f1) = p0 in
+       let (x2, f2) =
+         if advance then exec_prev x1 stm (ep_adv e) [] else (x1, [])
+       in
+       let x' = { t_reg = false; t_lsq = x2.t_lsq; t_ls = x2.t_ls; t_qs =
+         x2.t_qs; t_prev = []; t_cur = [] }
+       in
+       let s1 = set_thr s t x' in
+       ({ q_ep = (if advance then ep_adv e else e); q_T =
+       (Z.sub s.q_T (Zpos XH)); q_P =
+       (if advance
+        then Z.sub s.q_T (Zpos XH)
+        else if remove_old then Z.sub s.q_P (Zpos XH) else s.q_P); q_oprev =
+       (push_nonempty x2.t_prev op); q_ocur = (push_nonempty x2.t_cur oc);
+       q_thr = s1.q_thr; q_gep =
+       (if advance then Z.add s.q_gep (Zpos XH) else s.q_gep); q_wait =
+       s1.q_wait }, (app fo (app f1 f2)))
+
+(** val q_register : qstate -> tid0 -> step_res **)
+
+let q_register s t =
+  let x' = { t_reg = true; t_lsq = s.q_ep; t_ls = s.q_ep; t_qs = Z0; t_prev =
+    []; t_cur = [] }
+  in
+  let s1 = set_thr s t x' in
+  ({ q_ep = s1.q_ep; q_T = (Z.add s1.q_T (Zpos XH)); q_P =
+  (Z.add s1.q_P (Zpos XH)); q_oprev = s1.q_oprev; q_ocur = s1.q_ocur; q_thr =
+  s1.q_thr; q_gep = s1.q_gep; q_wait = s1.q_wait }, [])
+
+type qop =
+| QRegister of tid0
+| QUnregister of tid0
+| QQuiescent of tid0
+| QRetire of tid0 * ptr
+
+(** val op_tid : qop -> tid0 **)
+
+let op_tid = function
+| QRegister t -> t
+| QUnregister t -> t
+| QQuiescent t -> t
+| QRetire (t, _) -> t
+
+(** val op_enabled : qstate -> qop -> bool **)
+
+let op_enabled s o =
+  (&&) (Nat.ltb (op_tid o) (length s.q_thr))
+    (match o with
+     | QRegister t -> negb (get_thr s t).t_reg
+     | _ -> (get_thr s (op_tid o)).t_reg)
+
+(** val qstep : qstate -> qop -> step_res **)
+
+let qstep s o =
+  let (s', f) =
+    match o with
+    | QRegister t -> q_register s t
+    | QUnregister t -> q_unregister s t
+    | QQuiescent t -> q_quiescent s t
+    | QRetire (t, p) -> q_retire s t p
+  in
+  ((with_ghost s' (ghost_drop s'.q_wait f)), f)
+
+(** val wait_of : (ptr * tid0 list) list -> ptr -> tid0 list **)
+
+let rec wait_of w p =
+  match w with
+  | [] -> []
+  | p0 :: w' -> let (q, ws) = p0 in if Z.eqb q p then ws else wait_of w' p
+
+(** val pending : qstate -> ptr list **)
+
+let pending s =
+  app (concat (map (fun x -> app x.t_prev x.t_cur) s.q_thr))
+    (app (concat s.q_oprev) (concat s.q_ocur))
+
+(** val registered_count : qstate -> z **)
+
+let registered_count s =
+  Z.of_nat (length (filter (fun t -> t.t_reg) s.q_thr))
